@@ -1284,6 +1284,7 @@ def correspondence(ctx, want_driver=True):
         X.part_L(ctx, seedval)
         X.part_M(ctx, seedval)
         X.part_N(ctx, seedval)
+        X.part_O(ctx, seedval)
         if want_driver:
             part_A(ctx, lines, recs)
             part_C(ctx, lines, recs, seedval)
@@ -1294,7 +1295,7 @@ def correspondence(ctx, want_driver=True):
     if want_driver:
         compare_driver(ctx, lines, recs)
     # run.py prints the first 8 distinct keys: one representative per defect class first
-    prio = ["algebra-history:", "diag-ard:", "checkpoint-kernel:", "history:", "wrapper-batch:", "ldb:", "active_dims:column-order", "aliasing:", "active_dims:column-selection", "kernel-call", "kernel-getitem:active_dims", "expand_batch:active_dims", "getitem:multiout", "getitem:batch-slice-of-broadcast-dim",
+    prio = ["wrapper-ext:", "algebra-history:", "diag-ard:", "checkpoint-kernel:", "history:", "wrapper-batch:", "ldb:", "active_dims:column-order", "aliasing:", "active_dims:column-selection", "kernel-call", "kernel-getitem:active_dims", "expand_batch:active_dims", "getitem:multiout", "getitem:batch-slice-of-broadcast-dim",
             "repeat:", "diag:", "transpose:", "blocks:", "lazy-vs-eager", "getitem:values", "getitem:empty", "kernel-getitem",
             "expand_batch", "rejects-valid-index", "linear_operator"]
 
@@ -1321,12 +1322,16 @@ def replay(ctx, payload):
     try:
         c = payload["case"]
         seedval = payload.get("seed", 0)
-        if c.get("part") in ("algebra-history", "diag-ard", "checkpoint"):
+        if c.get("part") in ("algebra-history", "diag-ard", "checkpoint", "wrapper-ext"):
             from props import _c06_extra as X
             sub = Ctx0()
             if c["part"] == "checkpoint":
                 X.part_N(sub, seedval, only=(c["kernel"], c["kernel_batch"], c["split"]))
                 return not sub.failures
+            if c["part"] == "wrapper-ext":
+                X.part_O(sub, seedval, only=(c["kernel"], c["inner_batch"], c["outer_batch"]))
+                return not any(f[2].get("what") == c.get("what") and f[2].get("index_text") == c.get("index_text")
+                               for f in sub.failures3)
             if c["part"] == "algebra-history":
                 X.part_L(sub, seedval, only=(c["operand"], c["kernel_batch"], c["op"]))
             else:
